@@ -71,7 +71,7 @@ func c08Once(name string, frame []byte, k int, kind env.EndKind, c *explore.Choo
 	case res.Budget:
 		return mk("nontermination", "step budget exceeded"), r
 	case p != nil:
-		return mk("packet-from-partial-frame", fmt.Sprintf("returned packet %q (err=%v) although only %d of %d bytes were delivered", clip(p.String(), 80), err, r.Off, len(frame))), r
+		return mk("packet-from-partial-frame", fmt.Sprintf("returned packet %q (err=%v) although only %d of %d bytes were delivered", clip(safeString(p), 80), err, r.Off, len(frame))), r
 	case err == nil:
 		return mk("no-error", "nil packet and nil error"), r
 	}
